@@ -429,6 +429,25 @@ func (vc *VC) loopHeader(fr *frame, h *ssa.BasicBlock, st *state, ord int) {
 		if phi.Comment == "rangeindex" {
 			// built-in invariant of index loops (starts at -1, incremented by one)
 			vc.assume(st.reach, "(>= "+n+" (- 1))")
+			// ... and stays below the bound it is compared with: header is `i = phi+1; if i < bound`
+			for _, ins := range h.Instrs {
+				inc, ok := ins.(*ssa.BinOp)
+				if !ok || inc.X != ssa.Value(phi) || inc.Op.String() != "+" {
+					continue
+				}
+				for _, ins2 := range h.Instrs {
+					cmp, ok := ins2.(*ssa.BinOp)
+					if !ok || cmp.X != ssa.Value(inc) || cmp.Op.String() != "<" {
+						continue
+					}
+					if bi, isIns := cmp.Y.(ssa.Instruction); isIns && loopBlocks(h)[bi.Block()] {
+						continue
+					}
+					if len(phi.Edges) == 2 {
+						vc.assume(st.reach, "(< "+n+" "+vc.get(fr, cmp.Y).T+")")
+					}
+				}
+			}
 		}
 	}
 	// processed keys of a map iteration are keys of the map (instantiated at ghost keys)
